@@ -321,6 +321,9 @@ func (g *c05gen) val(v fix) {
 				b = a
 			} else if a == b {
 				b = a + fixOne
+				if b >= 1<<31 {
+					b = a - fixOne // a is the largest operand value
+				}
 			}
 			g.num(a)
 			g.num(b)
